@@ -23,6 +23,7 @@ func propC02() *Property {
 			{ID: "C02.R4", Title: "what jtp.Get caches for a URL is exactly what it returns for it", Floor: 3, Run: c02R4},
 			{ID: "C02.R5", Title: "FetchURL returns one intact (document, source, error) bundle", Floor: 2, Run: c02R5},
 			{ID: "C02.R6", Title: "no side door to the fetcher", Floor: 4, Run: c02R6},
+			{ID: "C02.R7", Title: "what a collection holds was read from the document its id was verified for", Floor: 2, Run: c02R7},
 		},
 	}
 }
@@ -292,6 +293,10 @@ func c02R3(c *Ctx) {
 	fn := P.Func("servitor/client", "FetchUnknown")
 	fname := FuncName(fn)
 	fetchURL := P.Func("servitor/client", "FetchURL")
+	if len(fn.Params) < 2 || fn.Signature.Results().Len() != 3 {
+		c.bad(fname+"/shape", P.Pos(fn.Pos()), fname, "FetchUnknown no longer returns (object, id, error) for (input, source): the acceptance condition cannot be read off its returns")
+		return
+	}
 	srcParam := fn.Params[1]
 	nSuccess := 0
 	for _, b := range fn.Blocks {
@@ -701,4 +706,46 @@ func idReaderParam(P *Program, fn *ssa.Function, seen map[*ssa.Function]bool) in
 		param = k
 	}
 	return param
+}
+
+// c02R7: a Collection judges its items against its own id (`construct(element,
+// c.id)`). That is only right if the items, and the reference to the following
+// page, were read from the very document the id was verified for: every store
+// into Collection.elements / Collection.next takes result #0 of an accessor
+// called on NewCollectionFromObject's own object parameter, inside that
+// constructor. A collection that adopts the items of a page fetched from
+// somewhere else while keeping its id (seed C02-2r8) attributes that page's
+// embedded objects to the collection's host.
+func c02R7(c *Ctx) {
+	P := c.P
+	ctor := P.Func("servitor/pub", "NewCollectionFromObject")
+	var obj *ssa.Parameter
+	for _, p := range ctor.Params {
+		if isNamed(p.Type(), "servitor/object", "Object") {
+			obj = p
+		}
+	}
+	if obj == nil {
+		c.bad(FuncName(ctor)+"/shape", P.Pos(ctor.Pos()), FuncName(ctor), "NewCollectionFromObject has no object parameter")
+		return
+	}
+	for _, name := range []string{"elements", "next"} {
+		f := P.Field("servitor/pub", "Collection", name)
+		for _, st := range storesToField(P, f) {
+			fn := st.Parent()
+			root := fn
+			for root.Parent() != nil {
+				root = root.Parent()
+			}
+			ok := false
+			if ex, isEx := unwrapLoad(st.Val).(*ssa.Extract); isEx && ex.Index == 0 && root == ctor {
+				if call, isCall := ex.Tuple.(*ssa.Call); isCall && len(call.Call.Args) > 0 && unwrapLoad(call.Call.Args[0]) == ssa.Value(obj) {
+					if sc := call.Call.StaticCallee(); sc != nil && P.PkgOf(sc) == "servitor/object" {
+						ok = true
+					}
+				}
+			}
+			c.check(ok, FuncName(fn)+"/collection-"+name, P.InstrPos(st), FuncName(fn), "Collection."+name+" is read from the constructor's own document", "Collection."+name+" is filled from something other than the document this collection's id was verified for: its items are then judged against the wrong host")
+		}
+	}
 }
